@@ -1248,6 +1248,113 @@ def oracle_pipe(case, out):
 
 
 
+# ------------------------------------------------------------------------------------------------
+# dynamic shapes: run-time shape of the stand-in buffer and of the copies ("dyn")
+# ------------------------------------------------------------------------------------------------
+# A cast of a memref with dynamic dimensions at arbitrary positions (16x?, ?x8x?, ?x?, ...) is realised with
+# `memref.dim` ops + `memref.alloc(dyn operands)`. The lowered function is executed on concrete run-time shapes:
+# arith.constant / memref.dim / memref.alloc are evaluated, every memref.copy must connect two buffers of the same
+# run-time shape and the accelerator op must see operands of the source's run-time shape.
+
+def gen_dyn(rng):
+    rank = rng.choice([1, 2, 2, 3, 3])
+    shape = [rng.choice([None, None, 2, 3, 4, 8, 16]) for _ in range(rank)]
+    if all(x is not None for x in shape) and rng.random() < 0.8:
+        shape[rng.randrange(rank)] = None
+    rt = [x if x is not None else rng.choice([1, 5, 7, 9, 11]) for x in shape]
+    return {"kind": "dyn", "shape": shape, "rt": rt, "el": rng.choice(["i8", "i32"]),
+            "roles": rng.choice(["in", "out", "both", "inout"]), "chain": rng.random() < 0.3}
+
+
+def dyn_src(case):
+    sh = "x".join("?" if x is None else str(x) for x in case["shape"])
+    el = case["el"]
+    t3, t1 = f'memref<{sh}x{el}, "L3">', f'memref<{sh}x{el}, "L1">'
+    rank = len(case["shape"])
+    ident = "affine_map<(" + ", ".join(f"d{i}" for i in range(rank)) + ") -> (" + ", ".join(f"d{i}" for i in range(rank)) + ")>"
+    roles = case["roles"]
+    lines = [f"    %c0 = \"memref.memory_space_cast\"(%g) : ({t3}) -> {t1}"]
+    if case["chain"]:  # a second cast in the chain (fused into one allocation)
+        lines = [f"    %m0 = \"memref.memory_space_cast\"(%g) : ({t3}) -> {t3.replace('L3', 'L2')}",
+                 f"    %c0 = \"memref.memory_space_cast\"(%m0) : ({t3.replace('L3', 'L2')}) -> {t1}"]
+    lines.append(f"    %c1 = \"memref.memory_space_cast\"(%k) : ({t3}) -> {t1}")
+    i1, i2, o = {"in": ("c0", "a", "b"), "out": ("a", "a", "c0"), "both": ("c0", "a", "c1"), "inout": ("c0", "c0", "c0")}[roles]
+    lines.append(f'    linalg.generic {{indexing_maps = [{ident}, {ident}, {ident}], iterator_types = [{", ".join([chr(34) + "parallel" + chr(34)] * rank)}]}} '
+                 f'ins(%{i1}, %{i2} : {t1}, {t1}) outs(%{o} : {t1}) attrs = {{tag = 1}} {{')
+    lines += [f"    ^bb0(%x: {el}, %y: {el}, %z: {el}):", f"      %w = arith.muli %x, %y : {el}", f"      linalg.yield %w : {el}", "    }"]
+    body = "\n".join(lines)
+    return f"""builtin.module {{
+  func.func @f(%g : {t3}, %k : {t3}, %a : {t1}, %b : {t1}) {{
+{body}
+    func.return
+  }}
+}}
+"""
+
+
+def impl_dyn(case):
+    from xdsl.dialects import arith, func, linalg, memref
+    src = dyn_src(case)
+    try:
+        snaxrun.parse(src).verify()
+    except Exception as e:
+        return {"invalid_input": f"{type(e).__name__}: {str(e)[:100]}"}
+    m = snaxrun.parse(snaxrun.run_passes(src, "realize-memref-casts"))
+    m.verify()
+    f = [o for o in m.walk() if isinstance(o, func.FuncOp)][0]
+    rt = list(case["rt"])
+    shape_of = {a: rt for a in f.body.block.args}
+    val = {}
+    allocs, copies, problems = [], [], []
+    op_shapes = None
+    for op in f.body.block.ops:
+        if isinstance(op, arith.ConstantOp):
+            val[op.result] = op.value.value.data
+        elif isinstance(op, memref.DimOp):
+            sh, i = shape_of[op.source], val[op.index]
+            if not 0 <= i < len(sh):
+                problems.append(f"memref.dim index {i} outside rank {len(sh)}")
+                val[op.result] = -1
+            else:
+                val[op.result] = sh[i]
+        elif isinstance(op, memref.AllocOp):
+            dyn = [val[v] for v in op.dynamic_sizes]
+            dims = [val[v.owner.index] if isinstance(v.owner, memref.DimOp) else None for v in op.dynamic_sizes]
+            from xdsl.dialects.builtin import DYNAMIC_INDEX
+            decl = [-1 if d == DYNAMIC_INDEX else d for d in op.memref.type.get_shape()]
+            if sum(1 for d in decl if d == -1) != len(dyn):
+                problems.append("number of dynamic sizes of the allocation differs from the number of dynamic dimensions")
+            it = iter(dyn)
+            sh = [next(it, -1) if d == -1 else d for d in decl]
+            shape_of[op.memref] = sh
+            allocs.append({"dims": dims, "shape": sh})
+        elif isinstance(op, memref.MemorySpaceCastOp):
+            shape_of[op.dest] = shape_of[op.source]
+        elif isinstance(op, memref.CopyOp):
+            copies.append([shape_of[op.source], shape_of[op.destination]])
+        elif isinstance(op, linalg.GenericOp):
+            op_shapes = [shape_of[v] for v in op.operands]
+    return {"allocs": allocs, "copies": copies, "op_shapes": op_shapes, "problems": problems}
+
+
+def oracle_dyn(case, out):
+    if "raised" in out or "invalid_input" in out:
+        return []
+    rt = case["rt"]
+    v = [{"what": p, "finding": None} for p in out["problems"]]
+    for a in out["allocs"]:
+        if a["shape"] != rt:
+            v.append({"what": f"the L1 buffer standing in for a cast of memref<{case['shape']}> is allocated with run-time shape "
+                              f"{a['shape']} (memref.dim indices {a['dims']}), the source has {rt}", "finding": None})
+    for s_, d_ in out["copies"]:
+        if s_ != d_:
+            v.append({"what": f"a copy connects buffers of run-time shapes {s_} and {d_}", "finding": None})
+    if out["op_shapes"] is not None and any(s_ != rt for s_ in out["op_shapes"]):
+        v.append({"what": f"the accelerator op sees operands of run-time shapes {out['op_shapes']}, the original operands have {rt}", "finding": None})
+    return v[:3]
+
+
+
 # -- syntactic clauses of the partial theorem, evaluated on the generated program (harness side) ---------
 
 def classify(case):
@@ -1329,6 +1436,8 @@ class C12(Prop):
             yield gen_glob(rng)
         for _ in range(350 if q else 6000):
             yield gen_pipe(rng, big=not q)
+        for _ in range(150 if q else 2500):
+            yield gen_dyn(rng)
         for _ in range(60 if q else 1500):
             cols, rows = rng.randint(0, 6), rng.randint(0, 6)
             n = cols * rows + (rng.choice([-1, 1, 2]) if rng.random() < 0.1 else 0)
@@ -1347,6 +1456,8 @@ class C12(Prop):
             return impl_glob(case)
         if k == "pipe":
             return impl_pipe(case)
+        if k == "dyn":
+            return impl_dyn(case)
         if k == "transpose":
             from snaxc.transforms.frontend.remove_transpose_constants import RemoveTransposeConstants
             return {"out": list(RemoveTransposeConstants().transpose_tuple(tuple(case["a"]), case["cols"], case["rows"]))}
@@ -1363,6 +1474,8 @@ class C12(Prop):
             return []  # `dest layout is not tsl`: not transformed; an uninitialised global is always re-typed
         if k == "pipe":
             return [{"fn": "c12.assignCasts", "args": {"fixed": FIX_C, "body": pipe_model_body(case)}}]
+        if k == "dyn":
+            return [{"fn": "c12.standIn", "args": {"shape": case["shape"], "rt": case["rt"]}}]
         if k in ("const", "glob"):
             return [{"fn": "c12.transformConstant", "args": {"data": case["data"], "refuse_offset": FIX_D,
                                                              "layout": {"ts": case["ts"], "offset": case["offset"]}}}]
@@ -1393,6 +1506,16 @@ class C12(Prop):
         k = case["kind"]
         if "invalid_input" in impl_out:
             return impl_out
+        if k == "dyn":
+            a = answers[0]
+            if "err" in a:
+                return {"model_error": a["err"]}
+            r = a["ok"]
+            n_alloc = 2 if case["roles"] == "both" else 1
+            n_copy = 1 if case["roles"] in ("in", "out") else 2
+            return {"allocs": [{"dims": r["dims"], "shape": r["alloc"]}] * n_alloc,
+                    "copies": [[r["alloc"], r["alloc"]]] * n_copy if r["alloc"] == case["rt"] else "?",
+                    "op_shapes": [r["alloc"]] * 3, "problems": []}
         if k == "pipe":
             a = answers[0]
             if "err" in a:
@@ -1494,6 +1617,8 @@ class C12(Prop):
             return oracle_glob(case, out)
         if k == "pipe":
             return oracle_pipe(case, out)
+        if k == "dyn":
+            return oracle_dyn(case, out)
         if k == "transpose":
             a, cols, rows = case["a"], case["cols"], case["rows"]
             o = out["out"]
@@ -1526,6 +1651,8 @@ class C12(Prop):
             return k == "glob" or (out.get("out") is not None and out["out"] != case["data"])
         if k == "pipe":
             return "for" in str(case["body"])
+        if k == "dyn":
+            return None in case["shape"]
         if k == "transpose":
             return case["cols"] > 1 and case["rows"] > 1
         if k == "memspace":
@@ -1542,6 +1669,10 @@ class C12(Prop):
             return f"glob:{case.get('root', 'init')}:{case.get('form')}:{'none' if out.get('out') is None else 'transformed'}"
         if k == "const":
             return f"{k}:{'none' if out.get('out') is None else 'transformed'}"
+        if k == "dyn":
+            sh = case["shape"]
+            late = any(x is None and any(y is not None for y in sh[:i]) for i, x in enumerate(sh))
+            return f"dyn:{'dynamic-after-static' if late else ('dynamic-first' if None in sh else 'static')}"
         if k == "pipe":
             return f"pipe:{'invalid' if not out.get('valid', True) else ('ok' if out.get('sem') is None else 'differs')}"
         if k == "realize" and "per" in out:
